@@ -40,8 +40,8 @@ import (
 )
 
 const (
-	volBlocks  = 4
-	volSectors = volBlocks * rawfs.SPB
+	volBlocks  = 32
+	volSectors = 32 // number of write-id slots (historical name: one sector per id in dense layout)
 	rpcTimeout = 700 * time.Millisecond
 )
 
@@ -74,6 +74,7 @@ type node struct {
 	touched             map[string]int    // calls received during the current event
 	conns               []net.Conn
 	down                bool
+	onRest              func(key string) // observer of management requests (AddRace)
 }
 
 type drvT struct {
@@ -91,7 +92,13 @@ func (n *node) fault(key string) string {
 	n.mu.Lock()
 	defer n.mu.Unlock()
 	n.touched[key]++
-	return n.faults[key]
+	if f, ok := n.faults[key]; ok {
+		return f
+	}
+	if strings.HasPrefix(key, "rest:") && key != "rest:ping" && key != "rest:start" {
+		return n.faults["rest:*"] // every management request of this replica fails
+	}
+	return ""
 }
 
 // data path wrapper around the real replica.Server
@@ -159,7 +166,11 @@ func (n *node) ServeHTTP(w http.ResponseWriter, r *http.Request) {
 	f := n.fault(key)
 	n.mu.Lock()
 	down := n.down
+	obs := n.onRest
 	n.mu.Unlock()
+	if obs != nil {
+		obs(key)
+	}
 	if down {
 		http.Error(w, "node down", http.StatusServiceUnavailable)
 		return
@@ -359,12 +370,32 @@ type Op struct {
 	Name string   `json:"name,omitempty"`
 	Mode string   `json:"mode,omitempty"`
 	Rev  int64    `json:"rev,omitempty"`
+	K    int      `json:"k,omitempty"` // Race: number of concurrent writes
+}
+
+// stride: 512-byte sectors between the slots of consecutive write ids.  8 = every id in its own
+// 4 KiB block (default: a sub-block write shares its block with nothing, so the replica engine's
+// read-modify-write cannot mix write ids); 1 = dense (ids share blocks: scenarios of the C07 part)
+var stride = 8
+
+func off(w int) int64 { return int64(w-1) * int64(stride) * rawfs.SectorSize }
+
+// per-id projection of a per-sector image
+func project(sectors []int) []int {
+	out := make([]int, volSectors)
+	for i := range out {
+		if i*stride < len(sectors) {
+			out[i] = sectors[i*stride]
+		}
+	}
+	return out
 }
 
 type Scenario struct {
 	ID  int    `json:"id"`
 	RF  int    `json:"rf"`
 	N   int    `json:"n"`
+	Dense bool `json:"dense,omitempty"`
 	Src string `json:"src,omitempty"`
 	Ops []Op   `json:"ops"`
 }
@@ -487,7 +518,7 @@ type NodeState struct {
 }
 
 func imageOf(d *rawfs.Dir, top string) []int {
-	img := make([]int, volSectors)
+	img := make([]int, volBlocks*rawfs.SPB)
 	// walk base -> top
 	path := []string{}
 	for cur := top; cur != ""; {
@@ -506,7 +537,7 @@ func imageOf(d *rawfs.Dir, top string) []int {
 			}
 		}
 	}
-	return img
+	return project(img)
 }
 
 func idsIn(img []int) []int {
@@ -644,6 +675,19 @@ func (r *run) emit(ev string, a map[string]interface{}, res string, errText stri
 	r.w.WriteByte('\n')
 }
 
+// one of several concurrent calls: only its result and the replicas it reached are
+// recorded; the closing record of the group carries the state
+func (r *run) emitPartial(e map[string]interface{}) {
+	r.seq++
+	e["seq"] = r.seq
+	b, err := json.Marshal(e)
+	if err != nil {
+		panic(err)
+	}
+	r.w.Write(b)
+	r.w.WriteByte('\n')
+}
+
 func resOf(err error) (string, string) {
 	if err != nil {
 		return "refused", err.Error()
@@ -671,7 +715,33 @@ func (r *run) touchedData() []string {
 	return out
 }
 
+// watchdog: an operation that does not come back (a wedged controller) becomes a "Hang"
+// record; the process exits with status 3 and the recorded prefix is still validated
+var opDeadline int64 // unix nanos, 0 = idle
+var curOp Op
+var curRun *run
+
+func watchdog() {
+	for {
+		time.Sleep(500 * time.Millisecond)
+		dl := atomic.LoadInt64(&opDeadline)
+		if r := curRun; r != nil && dl != 0 && time.Now().UnixNano() > dl {
+			b, _ := json.Marshal(map[string]interface{}{"t": r.sc.ID, "seq": r.seq + 1, "ev": "Hang",
+				"a": map[string]interface{}{"op": curOp.Ev, "a": curOp.A, "opjson": curOp}, "res": "hang", "err": "operation did not return in 60s",
+				"touched": []string{}, "partial": true})
+			r.w.Write(b)
+			r.w.WriteByte('\n')
+			r.w.Flush()
+			fmt.Fprintln(os.Stderr, "HANG in", curOp.Ev, "scenario", r.sc.ID)
+			os.Exit(3)
+		}
+	}
+}
+
 func (r *run) exec(op Op) {
+	curOp = op
+	atomic.StoreInt64(&opDeadline, time.Now().Add(60*time.Second).UnixNano())
+	defer atomic.StoreInt64(&opDeadline, 0)
 	defer func() {
 		// a panic inside the controller (a REST handler would turn it into a dropped
 		// connection) is an observation, not a harness failure
@@ -756,6 +826,263 @@ func (r *run) exec1(op Op) {
 		} else {
 			r.emit("Add", map[string]interface{}{"a": op.A, "cf": op.Cf, "S": strs(op.F), "name": name}, res, et, nil)
 		}
+	case "WriteOOB", "ReadOOB":
+		// I/O that does not lie inside [0, volume size): refused by the controller before any
+		// replica is touched.  op.Kind: beyond | straddle | negative
+		size := int64(volBlocks) * rawfs.BlockSize
+		off := size
+		switch op.Kind {
+		case "straddle":
+			off = size - rawfs.SectorSize/2
+		case "negative":
+			off = -rawfs.SectorSize
+		case "far":
+			off = size * 1024
+		}
+		buf := make([]byte, rawfs.SectorSize)
+		for i := range buf {
+			buf[i] = 251
+		}
+		var err error
+		var n int
+		ev := "Write"
+		if op.Ev == "ReadOOB" {
+			ev = "Read"
+			n, err = c.ReadAt(buf, off)
+		} else {
+			n, err = c.WriteAt(buf, off)
+		}
+		if err == nil && n != len(buf) {
+			err = fmt.Errorf("short n=%d", n)
+		}
+		res, et := resOf(err)
+		if err != nil {
+			res = "failed"
+		}
+		td := r.touchedData()
+		r.emit(ev, map[string]interface{}{"A": []string{}, "w": 0, "mode": "err", "oob": op.Kind}, res, et,
+			map[string]interface{}{"touched": td, "T": []string{}, "served": "", "out": []int{}})
+	case "SnapRace":
+		// a volume snapshot contending with K foreground writes (all started behind the held
+		// controller lock): a write is before the snapshot iff some replica's snapshot image
+		// holds it; the snapshot must have the same content on every replica
+		k := op.K
+		if k <= 0 {
+			k = 6
+		}
+		type wres struct {
+			w   int
+			err error
+		}
+		results := make([]wres, k)
+		var wg sync.WaitGroup
+		var snapErr error
+		c.Lock()
+		startW := func(i int) {
+			r.nextW++
+			w := r.nextW
+			results[i].w = w
+			wg.Add(1)
+			go func() {
+				defer wg.Done()
+				buf := make([]byte, rawfs.SectorSize)
+				for j := range buf {
+					buf[j] = byte(w)
+				}
+				nn, err := c.WriteAt(buf, off(w))
+				if err == nil && nn != len(buf) {
+					err = fmt.Errorf("incomplete write n=%d", nn)
+				}
+				results[i].err = err
+			}()
+		}
+		half := (k + 1) / 2
+		for i := 0; i < half; i++ {
+			startW(i)
+		}
+		time.Sleep(20 * time.Millisecond)
+		wg.Add(1)
+		go func() {
+			defer wg.Done()
+			_, snapErr = c.Snapshot(op.Name)
+		}()
+		time.Sleep(20 * time.Millisecond)
+		for i := half; i < k; i++ {
+			startW(i)
+		}
+		time.Sleep(20 * time.Millisecond)
+		c.Unlock()
+		wg.Wait()
+		has := map[string]map[int]bool{}
+		inSnap := map[int]bool{}
+		for _, nm := range r.names {
+			has[nm] = map[int]bool{}
+			st := r.nodeState(r.node(nm))
+			for _, id := range st.Log {
+				has[nm][id] = true
+			}
+			for _, id := range st.SnapAt[op.Name] {
+				inSnap[id] = true
+			}
+		}
+		emitW := func(x wres) {
+			td := []string{}
+			for _, nm := range r.names {
+				if has[nm][x.w] {
+					td = append(td, nm)
+				}
+			}
+			res, et := resOf(x.err)
+			if x.err != nil {
+				res = "failed"
+			}
+			r.emitPartial(map[string]interface{}{"t": r.sc.ID, "ev": "Write", "a": map[string]interface{}{"A": []string{}, "w": x.w, "mode": "err"},
+				"res": res, "err": et, "touched": td, "partial": true})
+		}
+		sort.Slice(results, func(i, j int) bool { return results[i].w < results[j].w })
+		for _, x := range results {
+			if inSnap[x.w] {
+				emitW(x)
+			}
+		}
+		sres, set := resOf(snapErr)
+		r.emitPartial(map[string]interface{}{"t": r.sc.ID, "ev": "Snapshot", "a": map[string]interface{}{"name": op.Name, "S": []string{}},
+			"res": sres, "err": set, "touched": []string{}, "partial": true})
+		for _, x := range results {
+			if !inSnap[x.w] {
+				emitW(x)
+			}
+		}
+		r.emit("Noop", map[string]interface{}{"snaprace": op.Name, "k": k}, "ok", "", nil)
+	case "AddRace":
+		// an add with foreground writes running flat out while AddReplica executes.  A write
+		// the joiner applied came after the add's commit (snapshot on everybody + joiner
+		// attached WO), every other write before it -- and is therefore in the snapshot the
+		// rebuild copies.
+		n := r.node(op.A)
+		before := map[string][]string{}
+		for _, nm := range r.names {
+			before[nm] = r.nodeState(r.node(nm)).Snaps
+		}
+		reached := false
+		r.fac.onCreate = func(address string) { reached = true }
+		type wres struct {
+			w   int
+			err error
+		}
+		var results []wres
+		stop := make(chan struct{})
+		wdone := make(chan struct{})
+		maxW := op.K
+		if maxW <= 0 {
+			maxW = 12
+		}
+		// a write is fired whenever a replica receives a management request during the add
+		// (the places where the controller waits for somebody else): it runs as soon as the
+		// controller lock is free
+		kick := make(chan struct{}, 64)
+		for _, nm := range r.names {
+			nd := r.node(nm)
+			nd.mu.Lock()
+			nd.onRest = func(key string) {
+				select {
+				case kick <- struct{}{}:
+				default:
+				}
+			}
+			nd.mu.Unlock()
+		}
+		defer func() {
+			for _, nm := range r.names {
+				nd := r.node(nm)
+				nd.mu.Lock()
+				nd.onRest = nil
+				nd.mu.Unlock()
+			}
+		}()
+		go func() {
+			defer close(wdone)
+			for i := 0; i < maxW && r.nextW < volSectors-2; i++ {
+				if i >= 2 { // the first two go at once, the others wait for a management request
+					select {
+					case <-stop:
+						return
+					case <-kick:
+					}
+				}
+				select {
+				case <-stop:
+					return
+				default:
+				}
+				r.nextW++
+				w := r.nextW
+				buf := make([]byte, rawfs.SectorSize)
+				for j := range buf {
+					buf[j] = byte(w)
+				}
+				nn, err := c.WriteAt(buf, off(w))
+				if err == nil && nn != len(buf) {
+					err = fmt.Errorf("incomplete write n=%d", nn)
+				}
+				results = append(results, wres{w, err})
+			}
+		}()
+		time.Sleep(2 * time.Millisecond)
+		err := c.AddReplica(n.addr())
+		time.Sleep(3 * time.Millisecond)
+		close(stop)
+		<-wdone
+		r.fac.onCreate = nil
+		has := map[string]map[int]bool{}
+		for _, nm := range r.names {
+			has[nm] = map[int]bool{}
+			for _, id := range r.nodeState(r.node(nm)).Log {
+				has[nm][id] = true
+			}
+		}
+		name := ""
+		for _, nm := range r.names {
+			after := r.nodeState(r.node(nm)).Snaps
+			if len(after) > len(before[nm]) {
+				name = after[len(after)-1]
+			}
+		}
+		emitW := func(x wres) {
+			td := []string{}
+			for _, nm := range r.names {
+				if has[nm][x.w] {
+					td = append(td, nm)
+				}
+			}
+			res, et := resOf(x.err)
+			if x.err != nil {
+				res = "failed"
+			}
+			r.emitPartial(map[string]interface{}{"t": r.sc.ID, "ev": "Write", "a": map[string]interface{}{"A": []string{}, "w": x.w, "mode": "err"},
+				"res": res, "err": et, "touched": td, "partial": true})
+		}
+		for _, x := range results {
+			if !has[op.A][x.w] {
+				emitW(x)
+			}
+		}
+		ares, aet := resOf(err)
+		if !reached {
+			r.emitPartial(map[string]interface{}{"t": r.sc.ID, "ev": "AddCheck", "a": map[string]interface{}{"a": op.A},
+				"res": ares, "err": aet, "touched": []string{}, "partial": true})
+		} else {
+			r.emitPartial(map[string]interface{}{"t": r.sc.ID, "ev": "AddCheck", "a": map[string]interface{}{"a": op.A},
+				"res": "ok", "err": "", "touched": []string{}, "partial": true})
+			r.emitPartial(map[string]interface{}{"t": r.sc.ID, "ev": "AddCommit", "a": map[string]interface{}{"a": op.A, "cf": false, "S": []string{}, "name": name},
+				"res": ares, "err": aet, "touched": []string{}, "partial": true})
+		}
+		for _, x := range results {
+			if has[op.A][x.w] {
+				emitW(x)
+			}
+		}
+		r.emit("Noop", map[string]interface{}{"addrace": op.A, "k": maxW}, "ok", "", nil)
 	case "AddBegin":
 		// first locked section of addReplica; factory.Create is held at the gate
 		n := r.node(op.A)
@@ -851,6 +1178,96 @@ func (r *run) exec1(op Op) {
 		err := c.RemoveReplica(r.node(op.A).addr())
 		res, et := resOf(err)
 		r.emit("RemoveReplica", map[string]interface{}{"a": op.A}, res, et, nil)
+	case "Race":
+		// K writes and one RemoveReplica(op.A) contend for the controller: they are all
+		// started while the driver holds the controller lock, then released together.
+		// Whatever order the lock hands out, it must be explainable as a sequence: the
+		// writes the removed replica applied came before its removal, the others after.
+		k := op.K
+		if k <= 0 {
+			k = 6
+		}
+		type wres struct {
+			w   int
+			n   int
+			err error
+		}
+		results := make([]wres, k)
+		var wg sync.WaitGroup
+		c.Lock()
+		startW := func(i int) {
+			r.nextW++
+			w := r.nextW
+			results[i].w = w
+			wg.Add(1)
+			go func() {
+				defer wg.Done()
+				buf := make([]byte, rawfs.SectorSize)
+				for j := range buf {
+					buf[j] = byte(w)
+				}
+				n, err := c.WriteAt(buf, off(w))
+				if err == nil && n != len(buf) {
+					err = fmt.Errorf("incomplete write n=%d", n)
+				}
+				results[i].n, results[i].err = n, err
+			}()
+		}
+		half := (k + 1) / 2
+		for i := 0; i < half; i++ {
+			startW(i)
+		}
+		time.Sleep(30 * time.Millisecond)
+		var rmErr error
+		wg.Add(1)
+		go func() {
+			defer wg.Done()
+			rmErr = c.RemoveReplica(r.node(op.A).addr())
+		}()
+		time.Sleep(30 * time.Millisecond)
+		for i := half; i < k; i++ {
+			startW(i)
+		}
+		time.Sleep(30 * time.Millisecond)
+		c.Unlock()
+		wg.Wait()
+		// who applied what (raw images)
+		has := map[string]map[int]bool{}
+		for _, nm := range r.names {
+			has[nm] = map[int]bool{}
+			for _, id := range r.nodeState(r.node(nm)).Log {
+				has[nm][id] = true
+			}
+		}
+		emitW := func(x wres) {
+			td := []string{}
+			for _, nm := range r.names {
+				if has[nm][x.w] {
+					td = append(td, nm)
+				}
+			}
+			res, et := resOf(x.err)
+			if x.err != nil {
+				res = "failed"
+			}
+			r.emitPartial(map[string]interface{}{"t": r.sc.ID, "ev": "Write", "a": map[string]interface{}{"A": []string{}, "w": x.w, "mode": "err"},
+				"res": res, "err": et, "touched": td, "partial": true})
+		}
+		sort.Slice(results, func(i, j int) bool { return results[i].w < results[j].w })
+		for _, x := range results {
+			if has[op.A][x.w] {
+				emitW(x)
+			}
+		}
+		rres, ret := resOf(rmErr)
+		r.emitPartial(map[string]interface{}{"t": r.sc.ID, "ev": "RemoveReplica", "a": map[string]interface{}{"a": op.A},
+			"res": rres, "err": ret, "touched": []string{}, "partial": true})
+		for _, x := range results {
+			if !has[op.A][x.w] {
+				emitW(x)
+			}
+		}
+		r.emit("Noop", map[string]interface{}{"race": op.A, "k": k}, "ok", "", nil)
 	case "SetMode":
 		err := c.SetReplicaMode(r.node(op.A).addr(), types.Mode(op.Mode))
 		res, et := resOf(err)
@@ -898,7 +1315,7 @@ func (r *run) exec1(op Op) {
 			for i := range buf {
 				buf[i] = byte(w)
 			}
-			n, err = c.WriteAt(buf, int64(w-1)*rawfs.SectorSize)
+			n, err = c.WriteAt(buf, off(w))
 			if err == nil && n != len(buf) {
 				err = fmt.Errorf("incomplete write n=%d", n)
 			}
@@ -909,7 +1326,7 @@ func (r *run) exec1(op Op) {
 			}
 		case "Unmap":
 			// a range no write id ever uses (last sectors)
-			n, err = c.Unmap(int64(volSectors-1)*rawfs.SectorSize, rawfs.SectorSize)
+			n, err = c.Unmap(int64(volBlocks*rawfs.SPB-1)*rawfs.SectorSize, rawfs.SectorSize)
 			if err == nil && n != 0 {
 				err = fmt.Errorf("unmap n=%d", n)
 			}
@@ -929,7 +1346,7 @@ func (r *run) exec1(op Op) {
 			mode = "err"
 		}
 		r.arm(op.F, "read", mode)
-		buf := make([]byte, volSectors*rawfs.SectorSize)
+		buf := make([]byte, volBlocks*rawfs.BlockSize)
 		n, err := c.ReadAt(buf, 0)
 		if err == nil && n != len(buf) {
 			err = fmt.Errorf("short read %d", n)
@@ -940,7 +1357,7 @@ func (r *run) exec1(op Op) {
 		}
 		out := []int{}
 		if err == nil {
-			out = rawfs.Stamps(buf)
+			out = project(rawfs.Stamps(buf))
 		}
 		// which replicas received the read; the armed ones among them failed it
 		tried, served := []string{}, ""
@@ -1112,7 +1529,11 @@ func (r *run) setup() error {
 		controller.WithBackend(r.fac), controller.WithRF(r.sc.RF))
 	r.seq = 0
 	r.nextW = 0
-	r.emit("Init", map[string]interface{}{"rf": r.sc.RF, "n": r.sc.N, "src": r.sc.Src}, "ok", "", nil)
+	stride = 8
+	if r.sc.Dense {
+		stride = 1
+	}
+	r.emit("Init", map[string]interface{}{"rf": r.sc.RF, "n": r.sc.N, "src": r.sc.Src, "dense": r.sc.Dense}, "ok", "", nil)
 	return nil
 }
 
@@ -1196,6 +1617,121 @@ func (r *run) generate(n int, profile string) {
 		return "err"
 	}
 	snapN := 0
+	if profile == "oob" {
+		// C01, controller part: I/O outside [0, volume size) in every membership the bootstrap
+		// passes through (no replica yet, one RW, RW + WO, all RW, read-only)
+		kinds := []string{"beyond", "straddle", "negative", "far"}
+		probe := func() {
+			do(Op{Ev: "WriteOOB", Kind: kinds[rng.Intn(len(kinds))]})
+			do(Op{Ev: "ReadOOB", Kind: kinds[rng.Intn(len(kinds))]})
+		}
+		probe()
+		for _, nm := range r.names[:r.sc.RF] {
+			do(Op{Ev: "Register", A: nm})
+		}
+		if !r.c.StartSignalled {
+			return
+		}
+		first := r.nameOf(r.c.MaxRevReplica)
+		do(Op{Ev: "Start", A: first})
+		do(Op{Ev: "Write"})
+		probe()
+		for _, nm := range r.names[:r.sc.RF] {
+			if nm == first {
+				continue
+			}
+			do(Op{Ev: "Add", A: nm})
+			probe()
+			do(Op{Ev: "RebuildCopy", A: nm, Src: first})
+			do(Op{Ev: "Verify", A: nm})
+			do(Op{Ev: "Write"})
+		}
+		for _, k := range kinds {
+			do(Op{Ev: "WriteOOB", Kind: k})
+			do(Op{Ev: "ReadOOB", Kind: k})
+		}
+		do(Op{Ev: "Read"})
+		do(Op{Ev: "Write"})
+		do(Op{Ev: "Read"})
+		return
+	}
+	if profile == "rebuildrace" {
+		// C07: every replica RW, one leaves and comes back through add + rebuild + promotion
+		// while the foreground keeps writing -- during the add itself, during the copy,
+		// before the verification
+		rwNames := func() []string {
+			var out []string
+			for nm, mode := range r.members() {
+				if mode == "RW" {
+					out = append(out, nm)
+				}
+			}
+			sort.Strings(out)
+			return out
+		}
+		for _, nm := range r.names[:r.sc.RF] {
+			do(Op{Ev: "Register", A: nm})
+		}
+		if !r.c.StartSignalled {
+			do(Op{Ev: "Read"})
+			return
+		}
+		first := r.nameOf(r.c.MaxRevReplica)
+		do(Op{Ev: "Start", A: first})
+		for _, nm := range r.names[:r.sc.RF] {
+			if nm == first {
+				continue
+			}
+			do(Op{Ev: "Add", A: nm})
+			do(Op{Ev: "RebuildCopy", A: nm, Src: first})
+			do(Op{Ev: "Verify", A: nm})
+		}
+		do(Op{Ev: "Write"})
+		if rng.Intn(2) == 0 {
+			snapN++
+			do(Op{Ev: "Snapshot", Name: fmt.Sprintf("u%d", snapN)})
+			do(Op{Ev: "Write"})
+		}
+		for cycle := 0; cycle < 2 && r.nextW < volSectors-14; cycle++ {
+			rws := rwNames()
+			if len(rws) < 2 {
+				break
+			}
+			victim := rws[rng.Intn(len(rws))]
+			do(Op{Ev: "Remove", A: victim})
+			for _, nm := range r.pendingMonitors() {
+				do(Op{Ev: "MonitorRun", A: nm})
+			}
+			do(Op{Ev: "ReplicaRestart", A: victim})
+			for rng.Intn(2) == 0 {
+				do(Op{Ev: "Write"})
+			}
+			if rng.Intn(4) == 0 {
+				do(Op{Ev: "Add", A: victim})
+			} else {
+				do(Op{Ev: "AddRace", A: victim, K: 4 + rng.Intn(5)})
+			}
+			if r.members()[victim] != "WO" {
+				continue
+			}
+			for rng.Intn(2) == 0 {
+				do(Op{Ev: "Write"})
+			}
+			src := rwNames()
+			if len(src) == 0 {
+				break
+			}
+			do(Op{Ev: "RebuildCopy", A: victim, Src: src[rng.Intn(len(src))]})
+			for rng.Intn(2) == 0 {
+				do(Op{Ev: "Write"})
+			}
+			do(Op{Ev: "Verify", A: victim})
+			do(Op{Ev: "Read"})
+			do(Op{Ev: "Write"})
+		}
+		do(Op{Ev: "Read"})
+		return
+	}
 	if profile == "bootstrap" || rng.Intn(4) == 0 {
 		for _, nm := range r.names {
 			if rng.Intn(3) != 0 {
@@ -1323,6 +1859,8 @@ func (r *run) generate(n int, profile string) {
 				p = 0
 			}
 			do(Op{Ev: kind, F: r.subset(all, p), Mode: faultMode()})
+		case k < wR && rng.Intn(12) == 0:
+			do(Op{Ev: []string{"WriteOOB", "ReadOOB"}[rng.Intn(2)], Kind: []string{"beyond", "straddle", "negative", "far"}[rng.Intn(4)]})
 		case k < wR:
 			p := 0.25
 			if rng.Intn(3) == 0 {
@@ -1357,7 +1895,11 @@ func (r *run) generate(n int, profile string) {
 			if profile == "membership" && len(r.gated) == 0 && rng.Intn(3) == 0 {
 				do(Op{Ev: "AddBegin", A: a})
 			} else if _, busy := r.gated[a]; !busy {
-				do(Op{Ev: "Add", A: a, Cf: rng.Intn(12) == 0, F: sf})
+				if len(sf) == 0 && len(rws) > 0 && len(wo) == 0 && r.nextW < volSectors-12 && rng.Intn(3) == 0 {
+					do(Op{Ev: "AddRace", A: a, K: 3 + rng.Intn(5)}) // foreground writes during the add
+				} else {
+					do(Op{Ev: "Add", A: a, Cf: rng.Intn(12) == 0, F: sf})
+				}
 			}
 		case k < 74: // rebuild + promote
 			if len(wo) > 0 && len(rws) > 0 {
@@ -1376,6 +1918,10 @@ func (r *run) generate(n int, profile string) {
 			} else if len(all) > 0 {
 				do(Op{Ev: "Verify", A: all[rng.Intn(len(all))]})
 			}
+		case k < 80 && len(rws) == r.sc.RF && len(wo) == 0 && len(r.gated) == 0 && r.nextW < volSectors-10 &&
+			len(r.pendingMonitors()) == 0 && rng.Intn(3) == 0:
+			snapN++
+			do(Op{Ev: "SnapRace", Name: fmt.Sprintf("u%d", snapN), K: 4 + rng.Intn(4)})
 		case k < 80:
 			snapN++
 			var f []string
@@ -1383,6 +1929,10 @@ func (r *run) generate(n int, profile string) {
 				f = r.subset(all, 0.4)
 			}
 			do(Op{Ev: "Snapshot", Name: fmt.Sprintf("u%d", snapN), F: f})
+		case k < 86 && len(rws) > 0 && len(wo) == 0 && len(r.gated) == 0 && r.nextW < volSectors-10 &&
+			len(r.pendingMonitors()) == 0 && (rng.Intn(3) == 0 || len(rws) == r.sc.RF/2+1):
+			// a removal racing with foreground writes (most interesting when it costs the quorum)
+			do(Op{Ev: "Race", A: rws[rng.Intn(len(rws))], K: 4 + rng.Intn(4)})
 		case k < 86:
 			a := r.names[rng.Intn(len(r.names))]
 			do(Op{Ev: "Remove", A: a})
@@ -1459,6 +2009,17 @@ func serve(r *run, what, listen string) {
 		}
 		http.Error(w, "locked", http.StatusLocked)
 	})
+	// arm / disarm management-API faults of the in-process replica nodes (fuzzing the
+	// controller's handlers on their error paths)
+	mux.HandleFunc("/verif/arm", func(w http.ResponseWriter, req *http.Request) {
+		q := req.URL.Query()
+		if q.Get("node") == "" {
+			r.disarm()
+		} else {
+			r.arm([]string{q.Get("node")}, q.Get("key"), "err")
+		}
+		w.Write([]byte("ok"))
+	})
 	mux.HandleFunc("/verif/state", func(w http.ResponseWriter, req *http.Request) {
 		b, _ := json.Marshal(state())
 		w.Write(b)
@@ -1504,11 +2065,13 @@ func main() {
 	w := bufio.NewWriterSize(f, 1<<20)
 	defer w.Flush()
 	go replica.CreateHoles()
+	go watchdog()
 	rng := rand.New(rand.NewSource(*seed))
 	var scn int32
 	runOne := func(sc Scenario, generate bool) {
 		k := atomic.AddInt32(&scn, 1)
 		r := &run{sc: sc, w: w, rng: rng, work: *work, subnet: fmt.Sprintf("127.%d.%d", 10+*worker, k%250)}
+		curRun = r
 		if err := r.setup(); err != nil {
 			fmt.Fprintln(os.Stderr, "HARNESS-ERROR: setup:", err)
 			os.Exit(2)
@@ -1535,7 +2098,10 @@ func main() {
 			r.g.mu.Unlock()
 			serve(r, *serveWhat, *listen)
 		}
+		curOp = Op{Ev: "teardown"}
+		atomic.StoreInt64(&opDeadline, time.Now().Add(60*time.Second).UnixNano())
 		r.teardown()
+		atomic.StoreInt64(&opDeadline, 0)
 		w.Flush()
 	}
 	if *in != "" {
@@ -1564,6 +2130,7 @@ func main() {
 		if *fixRF > 0 {
 			rf = *fixRF
 		}
-		runOne(Scenario{ID: *base + i, RF: rf, N: rf + 1, Src: "gen:" + *profile}, true)
+		runOne(Scenario{ID: *base + i, RF: rf, N: rf + 1, Src: "gen:" + *profile,
+			Dense: *profile == "rebuildrace" && rng.Intn(2) == 0}, true)
 	}
 }
